@@ -393,6 +393,32 @@ def r3_once(program, rep, B):
                                       in facts or
                                       (mk_cmp("In", SEQ, B.TABLE), True)
                                       in pfacts))
+            if not okpop and len(ENT[2]) == 1:
+                # try: entry = table.pop(seq) / except KeyError: ... / else:
+                # <queue the completion>: the else clause runs only when the
+                # pop found (and removed) the entry
+                for v_, n_, c_, recv_, args_ in _view_calls(T, ("pop",)):
+                    if not (v_ is view and v_.term(c_, n_) == ENT):
+                        continue
+                    tr_ = getattr(c_, "_parent", None)
+                    while tr_ is not None and not isinstance(tr_, ast.Try):
+                        tr_ = getattr(tr_, "_parent", None)
+                    if tr_ is None or not any(
+                            _inside(c_, st__) for st__ in tr_.body):
+                        continue
+                    catches = any(
+                        h_.type is not None and any(
+                            isinstance(x_, ast.Name) and
+                            x_.id in ("KeyError", "LookupError")
+                            for x_ in ast.walk(h_.type))
+                        for h_ in tr_.handlers)
+                    leaves = all(not any(_inside(feed, st__)
+                                         for st__ in h_.body)
+                                 for h_ in tr_.handlers)
+                    in_else = any(_inside(feed, st__) for st__ in tr_.orelse
+                                  ) or any(_inside(feed, st__)
+                                           for st__ in tr_.body)
+                    okpop = catches and leaves and in_else
             # a pop without default under a membership test must follow it
             # directly (the table is a local mutable: the fact is only kept
             # while nothing changed it)
